@@ -246,6 +246,11 @@ class Interp:
                 elif v[0] == 'opaque' and getattr(self, 'opaque_fields', False):
                     c = Cell(('opaque', '%s.%s' % (v[1], e['f'])))      # (P-TRACE) a field of an unknown value is unknown
                     continue
+                elif v[0] == 'ts' and e['f'] == 0:
+                    # the packed word of a stamp the domain keeps atomic: it orders like the stamp (C04.T1 / C10 decide that), so the
+                    # word of a stamp is the stamp's own order symbol
+                    c = Cell(('ts', v[1]))
+                    continue
                 else:
                     raise Unmodelled('field %s of %r' % (e['f'], v[0]))
                 while len(fields) <= e['f']:
@@ -419,6 +424,8 @@ class Interp:
                 return r_
         if a[0] == 'bv' or b[0] == 'bv' or (self.bv_arith is not None and (a[0] == 'sym' or b[0] == 'sym')):
             return self.bv_binop(op, a, b)
+        if a[0] == 'ts' and b[0] == 'ts' and op in ('Lt', 'Le', 'Gt', 'Ge', 'Eq', 'Ne'):
+            return mk_bool(self.ts_rel({'Lt': 'lt', 'Le': 'le', 'Gt': 'gt', 'Ge': 'ge', 'Eq': 'eq', 'Ne': 'ne'}[op], a, b))
         if a[0] == 'bool' and b[0] == 'bool':
             f = {'Eq': lambda x, y: x == y, 'Ne': lambda x, y: x != y, 'BitAnd': lambda x, y: x and y,
                  'BitOr': lambda x, y: x or y, 'BitXor': lambda x, y: x != y}.get(op)
